@@ -91,9 +91,10 @@ class C11:
             if r < 0.55 or depth >= 2:
                 return simple(t)
             if r < 0.8 or depth > 0:
-                # (no capture inside a buffered block: end_capture would also take the block's
-                # pending output, which the property does not speak about)
-                return ["block", [op_a(t, depth + 1) for _ in range(rng.randint(1, 3))]]
+                # a capture inside a buffered block keeps its output to itself and leaves the
+                # block's pending output alone (repaired defect F14)
+                return ["block", [op_a(t, depth + 1) if rng.random() > 0.15 else ["capture", [simple(t) for _ in range(rng.randint(1, 2))]]
+                                  for _ in range(rng.randint(1, 3))]]
             return ["capture", [simple(t) if rng.random() < 0.8 else ["block", [simple(t)]] for _ in range(rng.randint(1, 2))]]
 
         for t in range(nthreads):
@@ -385,9 +386,11 @@ class Multi:
             for x in op[1]:
                 out.extend(self._payloads(x))
             return out
+        if op[0] == "capture":
+            return []  # nothing of it reaches the file
         raise ValueError(op[0])
 
-    def _emit(self, op):
+    def _emit(self, op, t=None):
         con = self.console
         if op[0] == "print":
             con.print(build(op[1]))
@@ -397,9 +400,47 @@ class Multi:
             self.probes["blocks"] += 1
             with con:
                 for x in op[1]:
-                    self._emit(x)
+                    self._emit(x, t)
+        elif op[0] == "capture":
+            self.probes["captures_in_blocks"] = self.probes.get("captures_in_blocks", 0) + 1
+            self._capture(t, op, nested=True)
         else:
             raise ValueError(op[0])
+
+    def _capture(self, t, op, nested=False):
+        o = self.oracle
+        exp = "".join("".join(self._payloads(x)) for x in op[1])
+        self.probes["captures"] += 1
+        for tok in TOKEN.findall(exp):
+            self.captured_tokens.add(tok)
+        def phantom_check():
+            # known finding F7: a print inside capture() while the display is live renders the
+            # frame into the capture and updates the remembered shape although nothing reached
+            # the screen; it matters when that height differs from the one on screen.  The hook
+            # may be installed while the capture block is already running (another thread's
+            # start()), so the predicate is evaluated when the block is entered and when it is left.
+            if o is not None and o.hooked:
+                self.probes["print_in_capture_while_live"] += 1
+                on_screen = len(o.frame) if o.frame else 0
+                if any(len(fr) != on_screen for fr in self.frames("frame")):
+                    self.phantom = True
+                    o.tags.add("phantom-frame")
+
+        if o is not None and not nested:
+            o.begin_op(["capture"], [])
+        phantom_check()
+        n0 = len(self.file.writes)
+        with self.console.capture() as cap:
+            for x in op[1]:
+                self._emit(x, t)
+            phantom_check()
+        got = cap.get()
+        mine = [w for w in self.file.writes[n0:] if w[1] == self.sim.me().tid]
+        if mine:
+            self._v("capture", "capture-leaked-to-file", "thread %d wrote %r to the file from inside capture()" % (t, mine[0][2][:80]))
+        self.captures.append((t, exp, got))
+        if o is not None and not nested:
+            o.end_op()
 
     def do(self, t, op, top=False):
         o = self.oracle
@@ -415,42 +456,11 @@ class Multi:
                 o.begin_op([k, TOKEN.findall(payload)[:1]], [("print", rows)])
                 if o.tracker:
                     o.tracker.print_begin()
-            self._emit(op)
+            self._emit(op, t)
             if o is not None:
                 o.end_op()
         elif k == "capture":
-            exp = "".join("".join(self._payloads(x)) for x in op[1])
-            self.probes["captures"] += 1
-            for tok in TOKEN.findall(exp):
-                self.captured_tokens.add(tok)
-            def phantom_check():
-                # known finding F7: a print inside capture() while the display is live renders the
-                # frame into the capture and updates the remembered shape although nothing reached
-                # the screen; it matters when that height differs from the one on screen.  The hook
-                # may be installed while the capture block is already running (another thread's
-                # start()), so the predicate is evaluated when the block is entered and when it is left.
-                if o is not None and o.hooked:
-                    self.probes["print_in_capture_while_live"] += 1
-                    on_screen = len(o.frame) if o.frame else 0
-                    if any(len(fr) != on_screen for fr in self.frames("frame")):
-                        self.phantom = True
-                        o.tags.add("phantom-frame")
-
-            if o is not None:
-                o.begin_op(["capture"], [])
-            phantom_check()
-            n0 = len(self.file.writes)
-            with self.console.capture() as cap:
-                for x in op[1]:
-                    self._emit(x)
-                phantom_check()
-            got = cap.get()
-            mine = [w for w in self.file.writes[n0:] if w[1] == self.sim.me().tid]
-            if mine:
-                self._v("capture", "capture-leaked-to-file", "thread %d wrote %r to the file from inside capture()" % (t, mine[0][2][:80]))
-            self.captures.append((t, exp, got))
-            if o is not None:
-                o.end_op()
+            self._capture(t, op)
         elif k == "drain":
             self.probes["draining_exports"] += 1
             self.drained.append(TOKEN.findall(self.console.export_text(clear=True)))
